@@ -177,14 +177,14 @@ impl Fam {
     /// a query position for the classes that are decided by exact predicates and coordinate
     /// comparisons only (line iterator, constraint queries, rectangles): now and then a coordinate
     /// that is exactly zero is replaced by a small non-zero value of very different magnitude
-    /// (2^-60, the smallest valid coordinate 2^-142, or far below it: query positions are not
-    /// validated, and sums / products with such values round or underflow)
+    /// (2^-60 … 2^-142, the smallest valid coordinate: sums with such values round; values below
+    /// 2^-142 are not generated - they are not valid coordinates, the properties do not speak about them)
     pub fn qpoint_tiny(&self, rng: &mut Rng, ctx: &Ctx) -> (f64, f64) {
         let (mut x, mut y) = self.qpoint(rng, ctx);
         if rng.chance(80) {
             let tag = ctx.tri.tag();
             let tiny = |rng: &mut Rng| -> f64 {
-                let k = if tag == 'd' { *rng.pick(&[60, 60, 142, 200, 400, 700, 1000, 1074]) } else { *rng.pick(&[30, 30, 100, 130, 142, 149]) };
+                let k = if tag == 'd' { *rng.pick(&[60, 60, 100, 142]) } else { *rng.pick(&[30, 30, 100, 130, 142]) };
                 let s = if rng.chance(500) { 1.0 } else { -1.0 };
                 s * 2f64.powi(-k)
             };
@@ -199,12 +199,11 @@ impl Fam {
     }
 
     /// a segment skimming along a coordinate axis at a tiny distance (both end points on the same
-    /// side, or on opposite sides): edges on that axis are passed at a distance whose products
-    /// with anything underflow
+    /// side, or on opposite sides), down to the smallest valid coordinate 2^-142
     pub fn skim_segment(&self, rng: &mut Rng, ctx: &Ctx) -> ((f64, f64), (f64, f64)) {
         let tag = ctx.tri.tag();
         let tiny = |rng: &mut Rng| -> f64 {
-            let k = if tag == 'd' { *rng.pick(&[60, 400, 600, 700, 1000, 1070]) } else { *rng.pick(&[30, 80, 100, 130, 145]) };
+            let k = if tag == 'd' { *rng.pick(&[60, 100, 130, 142]) } else { *rng.pick(&[30, 80, 100, 130, 142]) };
             2f64.powi(-k) * (1 + rng.below(3)) as f64
         };
         let s1 = if rng.chance(500) { 1.0 } else { -1.0 };
